@@ -10,7 +10,6 @@
 # information at https://github.com/ddsmt/ddSMT/blob/master/LICENSE.
 
 import io
-import textwrap
 import typing
 
 from .nodes import Node
@@ -111,31 +110,53 @@ def parse_smtlib(text: str):  # noqa: C901
                 yield token
 
 
-def __write_smtlib(file: typing.TextIO, expr: Node):
-    """Write the given smtlib expression in one line into the file object."""
+def __write_smtlib(file: typing.TextIO, expr: Node, width=None):
+    """Write the given smtlib expression in one line into the file object.
+
+    If ``width`` is given, lines are wrapped at the white space between two
+    tokens (never within a token) such that they do not exceed ``width``
+    characters where possible.
+    """
     visit = [expr]
     needs_space = False
+    col = 0
     while visit:
         ex = visit.pop()
         if ex is None:
             file.write(')')
+            col += 1
             needs_space = True
             continue
 
         if needs_space:
-            file.write(' ')
+            sep = ' '
+            if width is not None and col > 2:
+                # the next token and its opening parentheses have to fit
+                first, chunk = ex, 0
+                while not first.is_leaf() and len(first) > 0:
+                    first, chunk = first[0], chunk + 1
+                if first.is_leaf():
+                    chunk += len(first.data.split('\n', 1)[0])
+                if col + 1 + chunk > width:
+                    sep = '\n  '
+            file.write(sep)
+            col = col + 1 if sep == ' ' else 2
 
         if ex.is_leaf():
             if ex.data == '':
                 continue
             if ex.data[0] == ';':
                 file.write(f'\n{ex.data}\n')
+                col = 0
             else:
                 file.write(ex.data)
+                nl = ex.data.rfind('\n')
+                col = col + len(ex.data) if nl < 0 else len(ex.data) - nl - 1
             needs_space = True
             continue
 
         file.write('(')
+        col += 1
         needs_space = False
         visit.append(None)
         visit.extend(x for x in reversed(ex.data))
@@ -197,17 +218,10 @@ def write_smtlib(file: typing.TextIO, exprs: typing.List[Node]):
         for expr in exprs:
             __write_smtlib_pretty(file, expr)
     else:
-        # regular writeing
-        lines = [__write_smtlib_str(expr) for expr in exprs]
-        if options.args().wrap_lines:
-            # wrap every line
-            lines = map(
-                lambda line: textwrap.wrap(
-                    line, width=78, subsequent_indent='  '), lines)
-            # and flatten the list
-            lines = [sub for line in lines for sub in line]
-        for line in lines:
-            file.write(line)
+        # regular writeing, wrap lines if requested
+        width = 78 if options.args().wrap_lines else None
+        for expr in exprs:
+            __write_smtlib(file, expr, width)
             file.write('\n')
 
 
